@@ -42,13 +42,21 @@ def note_info(d, zid):
             "people": list(n.people), "props": [[str(k), str(v)] for k, v in n.properties.items()]}
 
 
+RELATIVE = [False]
+
+
 def do_move(d, zid, dest, marker):
     from zorg.service import note_utils
     Z.fresh_process()
-    pm = {re.compile(r"^new/.*\.zo$"): Path("tmpl/new.zot")}
+    # the second pattern matches EXISTING pages too: a template must never be written over an existing page
+    existing = [n for n in ("alpha", "beta", "sections_dest", "empty_dest") if os.path.exists(os.path.join(d, n + ".zo"))]
+    pm = {re.compile(r"^new/.*\.zo$"): Path("tmpl/new.zot"),
+          re.compile(r"^(%s)(\.zo)?$" % "|".join(existing or ["-"])): Path("tmpl/new.zot")}
+    # the destination as typed on the command line: relative to the notes directory (the process runs elsewhere) or absolute
+    new_page = Path(dest) if RELATIVE[0] else Path(d) / dest
     with quiet():
         try:
-            return note_utils.move_note(Path(d), Z.db_url(d), pm, zid=zid, new_page=Path(d) / dest, note_type=marker)
+            return note_utils.move_note(Path(d), Z.db_url(d), pm, zid=zid, new_page=new_page, note_type=marker)
         except Exception as e:  # noqa: BLE001
             return "exn:" + type(e).__name__
 
@@ -225,7 +233,10 @@ def run(oc, tier, seed):
                     continue
                 dest = rng.choice(dests)
                 marker = rng.choice([None, None, "x", "~"])
+                RELATIVE[0] = rng.random() < 0.4
                 ok = check_move(eng, d, info, dest, marker, oc)
+                oc.count("dest_given_" + ("relative" if RELATIVE[0] else "absolute"))
+                RELATIVE[0] = False
                 if "\n" in info["body"] or info["projects"] or info["areas"] or info["props"]:
                     oc.nontriv((di, z, dest, marker))
                 oc.count("dest_" + dest.split("/")[0].split(".")[0])
